@@ -258,3 +258,25 @@ func runC01MaxOrientation(c *Ctx) {
 	}
 	c.Floor("O14", "DOM conditional copies in SetMaxResource", n, 3)
 }
+
+// runC01ScalarComparedEveryTime (O15): "the request fits" compares EVERY scalar resource of the request with the
+// node's (the pod slot — every pod asks for pods=1 — extended resources, ephemeral storage). In BaseResource.LessEqual
+// no iteration of the scalar loop skips the comparison: a threshold that drops small quantities drops the pod slot, and
+// a pod is bound to a node whose slots are all taken.
+func runC01ScalarComparedEveryTime(c *Ctx) {
+	f := c.Anchor("O15", "pkg/scheduler/api/resource_info", "BaseResource", "LessEqual")
+	if f == nil {
+		return
+	}
+	n := 0
+	for _, in := range instrsIn(f, func(in ssa.Instruction) bool {
+		lk, ok := in.(*ssa.Lookup)
+		return ok && rootParam(termOf(lk.X)) == 1 && loopHeaderOf(in.Block()) != nil
+	}) {
+		n++
+		ok, path := everyIterationPassesR(in, func(x ssa.Instruction) bool { return x == in }, nil, func(*ssa.Return) bool { return false })
+		c.Check(ok, "O15", "MPT", funcKey(f)+": every scalar resource of the request is compared", instrPos(in), "no iteration skips the lookup in the other side",
+			"a scalar resource of the request can be skipped by the fit comparison ("+pathStr(path)+"): the pod slot (pods=1) or a small extended-resource request is not checked against what is idle, and a pod is bound to a node that has none left")
+	}
+	c.Floor("O15", "MPT scalar lookups of LessEqual", n, 1)
+}
